@@ -113,6 +113,7 @@ fn check_loc(c: &Case) -> CaseResult {
             ("reader", Box::new(|| lexpr::from_reader_custom(Cursor::new(&input[..]), opts).err())),
             ("slice-datum", Box::new(|| lexpr::datum::from_slice_custom(input, opts).err())),
             ("reader-datum", Box::new(|| lexpr::datum::from_reader_custom(Cursor::new(&input[..]), opts).err())),
+            ("FromStr", Box::new(|| if qi == 0 { std::str::from_utf8(input).ok().and_then(|s| s.parse::<lexpr::Value>().err()) } else { None })),
         ];
         for (src, f) in &runs {
             if let Some(e) = f() {
@@ -266,6 +267,11 @@ fn check_trunc_text(text: &str, root: Option<&Node>, q: &QOpt, c: &Case) -> Case
                 ("reader", lexpr::from_reader_custom(Cursor::new(p), opts).err()),
                 ("slice-datum", lexpr::datum::from_slice_custom(p, opts).err()),
                 ("str", std::str::from_utf8(p).ok().and_then(|s| lexpr::from_str_custom(s, opts).err())),
+                // the entry points that take no options, under the default option set
+                ("FromStr", if q.index() == 0 { std::str::from_utf8(p).ok().and_then(|s| s.parse::<lexpr::Value>().err()) } else { None }),
+                ("from_str", if q.index() == 0 { std::str::from_utf8(p).ok().and_then(|s| lexpr::from_str(s).err()) } else { None }),
+                ("datum::from_str", if q.index() == 0 { std::str::from_utf8(p).ok().and_then(|s| lexpr::datum::from_str(s).err()) } else { None }),
+                ("from_reader", if q.index() == 0 { lexpr::from_reader(Cursor::new(p)).err() } else { None }),
             ];
             for (src, e) in results {
                 if let Some(e) = e {
